@@ -57,7 +57,9 @@ func init() {
 			Explain: "Decides that SyncEnable can influence nothing but whether a sync runs and RWMode/StartFileLoadingMode nothing but which RWManager runs (uses classified from what each flag test controls), that both RWManager implementations open and size the segment identically, that scan loops tolerate both implementations' end-of-data signalling, and that key-only mode reads the position key-value mode cached.",
 			NotCov:  "equality of results across option sets as such (runtime behaviour)."},
 	)
-	addRules("C01", "R-COMMITTED-READ")
+	addRules("C01", "R-COMMITTED-READ", "R-LEAFCHAIN")
+	addRules("C03", "R-LEAFCHAIN")
+	reg("R-LEAFCHAIN", "The B+ tree leaf chain that every scan walks: all walkers advance through one constant slot of Node.pointers, that slot is the last one and above every record slot, and every store that links a node into it is a list splice (fresh node; new.link = old.link or old.link == nil on every path, read before old.link = new); the slot is written nowhere else.", ruleLeafChain)
 	addRules("C02", "R-SEGPRED", "R-NEWEST", "R-COMMITTED-READ", "R-COMMITTED-SCAN-SPARSE", "R-REPLAY-KV")
 	addRules("C12", "R-COMMITTED-SCAN-SPARSE")
 	reg("R-COMMITTED-SCAN-SPARSE", "RangeScan, PrefixScan and PrefixSearchScan reach the committed-transaction index (ActiveCommittedTxIdsIdx or FindTxIDOnDisk) in their cones: sparse-mode scan results are filtered by committed transactions.", ruleCommittedScanSparse)
